@@ -222,6 +222,7 @@ struct wb_mt19937 { unsigned long state; };
 #endif
 unsigned long __CPROVER_uninterpreted_mt19937_state_of_seed(unsigned int);
 static inline void wb_mt19937_seed(struct wb_mt19937 *e, unsigned int s) { e->state = __CPROVER_uninterpreted_mt19937_state_of_seed(s); WB_SEEDED(s); }
+static inline struct wb_mt19937 wb_mt19937_ctor(unsigned long s) { struct wb_mt19937 e; wb_mt19937_seed(&e, (unsigned int)(s & 0xFFFFFFFFul)); return e; }  /* mt19937 reduces the seed modulo 2^32 */
 struct wb_uniform_real { double a; double b; };
 struct wb_normal_dist { double mean; double stddev; };
 /* drawing from a distribution: contract stubs (the engine state is the only thing assigned) */
